@@ -106,7 +106,7 @@ class Unsupported(Exception):
 
 
 class Frame:
-    __slots__ = ('fn', 'block', 'prev', 'ip', 'locals', 'ret', 'catch', 'visits', 'defers')
+    __slots__ = ('fn', 'block', 'prev', 'ip', 'locals', 'ret', 'catch', 'visits', 'defers', 'cutcount', 'cut_armed', 'cut_pending')
 
     def __init__(self, fn):
         self.fn = fn
@@ -118,6 +118,9 @@ class Frame:
         self.catch = False
         self.visits = {}
         self.defers = []
+        self.cutcount = None
+        self.cut_armed = None
+        self.cut_pending = None
 
     def copy(self):
         f = Frame(self.fn)
@@ -126,6 +129,9 @@ class Frame:
         f.ret, f.catch = self.ret, self.catch
         f.visits = dict(self.visits)
         f.defers = list(self.defers)
+        f.cutcount = dict(self.cutcount) if self.cutcount else None
+        f.cut_armed = self.cut_armed
+        f.cut_pending = self.cut_pending
         return f
 
 
@@ -214,6 +220,9 @@ class Executor:
         import cuts  # noqa: registers the cut accessors
         self.intr = INTRINSICS
         self.base_mem = None
+        self.loopcuts = {}
+        self.cut_started = set()
+        self._resolve_loopcuts()
         self._init_globals()
 
     # ------------------------------------------------------------ types / zero values
@@ -272,6 +281,153 @@ class Executor:
                 if r == 'done':
                     break
                 raise Unsupported('fork during init')
+
+
+    # ------------------------------------------------------------ loop cuts (one-step induction, DESIGN.md Part A)
+    def _resolve_loopcuts(self):
+        """opts['loopcuts']: list of {'fn': 'Decimal.QuoWithMode', 'phis': [...names of the header's phi nodes...],
+        'allocs': [...named local arrays written in the loop...], 'args': [...names...], 'hook': harness function}.
+        The header is found by the source-level names of its phi nodes, not by block numbers."""
+        for spec in self.opts.get('loopcuts', ()) or ():
+            recv, meth = spec['fn'].split('.')
+            fname = '(%s.%s).%s' % (self.prog.pkg, recv, meth)
+            fn = self.prog.funcs.get(fname)
+            if fn is None:
+                raise Unsupported('loop cut: no function ' + fname)
+            want = sorted(spec['phis'])
+            cands = []
+            for bi, b in enumerate(fn.blocks):
+                if b.get('comment') != 'for.loop':
+                    continue
+                names = sorted(i.get('comment') or '' for i in b['instrs'][:fn.nphis[bi]])
+                if names == want:
+                    cands.append(bi)
+            if not cands:
+                raise Unsupported('loop cut: no loop header with phis %s in %s' % (want, fname))
+
+            nb = len(fn.blocks)
+            dom = [set(range(nb)) for _ in range(nb)]
+            dom[0] = {0}
+            changed = True
+            while changed:
+                changed = False
+                for bi in range(1, nb):
+                    ps = fn.blocks[bi]['preds']
+                    new = None
+                    for q in ps:
+                        new = set(dom[q]) if new is None else (new & dom[q])
+                    new = (new or set()) | {bi}
+                    if new != dom[bi]:
+                        dom[bi] = new
+                        changed = True
+
+            def natural(h):
+                # natural loop of h: h plus everything that reaches a back-edge source (a predecessor dominated by h)
+                # without passing through h
+                body = {h}
+                stack = [q for q in fn.blocks[h]['preds'] if h in dom[q]]
+                while stack:
+                    x = stack.pop()
+                    if x in body:
+                        continue
+                    body.add(x)
+                    stack.extend(fn.blocks[x]['preds'])
+                return body
+            # several loops may carry the same variable names (an inner loop): the outermost one is meant
+            cands.sort(key=lambda c: -len(natural(c)))
+            if len(cands) > 1 and len(natural(cands[0])) == len(natural(cands[1])):
+                raise Unsupported('loop cut: ambiguous header with phis %s in %s' % (want, fname))
+            h = cands[0]
+            body = natural(h)
+            allocs = {}
+            for b in fn.blocks:
+                for i in b['instrs']:
+                    if i['op'] == 'Alloc' and i.get('comment'):
+                        allocs.setdefault(i['comment'], i)
+            params = {p['n']: p for p in fn.params}
+            phis = {i.get('comment'): i for i in fn.blocks[h]['instrs'][:fn.nphis[h]]}
+            for nm in list(spec.get('allocs', ())) + list(spec.get('args', ())):
+                if nm not in allocs and nm not in phis and nm not in params:
+                    raise Unsupported('loop cut: no variable %s in %s' % (nm, fname))
+            hook = self.pkg + spec['hook']
+            if hook not in self.prog.funcs:
+                raise Unsupported('loop cut: no hook ' + hook)
+            self.loopcuts[(fname, h)] = {'spec': spec, 'body': body, 'allocs': allocs, 'phis': phis, 'params': params, 'hook': hook, 'header': h}
+
+    def _fresh_of_type(self, st, tid, name):
+        t = self.prog.types[tid]
+        k = t['k']
+        if k == 'int':
+            bits, signed = t['bits'], t['signed']
+            lo, hi = (-(1 << (bits - 1)), (1 << (bits - 1)) - 1) if signed else (0, (1 << bits) - 1)
+            k2 = st.ndc.get('$havoc', 0) + 1
+            st.ndc['$havoc'] = k2
+            nm = 'h_%s_%d' % (name, k2)
+            v = T.var(nm, lo, hi)
+            st.inputs[nm] = ('int', v)
+            return v
+        if k == 'bool':
+            k2 = st.ndc.get('$havoc', 0) + 1
+            st.ndc['$havoc'] = k2
+            nm = 'h_%s_%d' % (name, k2)
+            v = T.bvar(nm)
+            st.inputs[nm] = ('bool', v)
+            return v
+        if k == 'array':
+            return [self._fresh_of_type(st, t['elem'], '%s%d' % (name, i)) for i in range(t['len'])]
+        raise Unsupported('loop cut: cannot havoc a value of kind ' + k)
+
+    def _cut_args(self, st, fr, lc, phase):
+        out = [phase]
+        for nm in lc['spec'].get('args', ()):
+            if nm in lc['phis']:
+                out.append(fr.locals[lc['phis'][nm]['n']])
+            elif nm in lc['allocs']:
+                out.append(self.load(st, fr.locals[lc['allocs'][nm]['n']]))
+            else:
+                out.append(fr.locals[nm])
+        return out
+
+    def _cut_push_hook(self, st, fr, lc, phase):
+        fn = self.prog.funcs[lc['hook']]
+        self.encoded.add(lc['hook'])
+        nf = Frame(fn)
+        for p, a in zip(fn.params, self._cut_args(st, fr, lc, phase)):
+            nf.locals[p['n']] = a
+        nf.ret = None
+        nf.visits[0] = 1
+        # the hook returns into the header: do_return advances ip by one
+        fr.ip = fr.fn.nphis[lc['header']] - 1
+        st.frames.append(nf)
+        st.just_entered = False
+
+    def _cut_havoc(self, st, fr, lc):
+        for nm, ins in lc['phis'].items():
+            fr.locals[ins['n']] = self._fresh_of_type(st, ins['t'], nm)
+        for nm in lc['spec'].get('allocs', ()):
+            ins = lc['allocs'][nm]
+            self.store(st, fr.locals[ins['n']], self._fresh_of_type(st, ins['elem'], nm))
+
+    def _cut_arrival(self, st, fr, target):
+        """called by jump() when a frame arrives at a cut loop header"""
+        lc = self.loopcuts[(fr.fn.name, target)]
+        if fr.cutcount is None:
+            fr.cutcount = {}
+        c = fr.cutcount.get(target, 0)
+        fr.cutcount[target] = c + 1
+        if c == 0:
+            # base case: the hook checks the invariant on the actual state (phase 0).  The first path that arrives goes
+            # on: havoc + assume (phase 1, see do_return) and one execution of the real body; that exploration does not
+            # depend on how the header was reached, so every later base path ends after its phase-0 check.
+            key = (fr.fn.name, target)
+            if key in self.cut_started:
+                fr.cut_pending = ('end', target)
+            else:
+                self.cut_started.add(key)
+                fr.cut_pending = target
+            self._cut_push_hook(st, fr, lc, 0)
+        else:
+            fr.cut_armed = target
 
     # ------------------------------------------------------------ memory
     def load(self, st, p):
@@ -621,6 +777,8 @@ class Executor:
                 with open(os.path.join(d, 'unk_%d.smt2' % len(self.obligations)), 'w') as f:
                     f.write(text)
         self.obligations.append(ob)
+        if self.opts.get('trace_slow'):
+            print('OB', ob['verdict'], ob.get('solver'), ob['wall'], kind, msg[:90], pos, 'paths', self.paths, flush=True)
         return res['verdict']
 
     def model_inputs(self, st, model):
@@ -664,6 +822,9 @@ class Executor:
             T.Ctx.pc = s.pc
             while True:
                 if self.deadline is not None and time.time() > self.deadline:
+                    if self.opts.get('best_effort'):
+                        self.ended['time-box'] = self.ended.get('time-box', 0) + 1
+                        return arrived
                     self.obligations.append({'kind': 'budget', 'msg': 'time budget exhausted during exploration', 'verdict': 'unknown', 'pos': ''})
                     self.violated = self.violated
                     return arrived
@@ -706,6 +867,23 @@ class Executor:
         fr.prev = fr.block
         fr.block = target
         fr.ip = n
+        if self.loopcuts and self.concrete_inputs is None:
+            if fr.cut_armed is not None:
+                lc = self.loopcuts[(fn.name, fr.cut_armed)]
+                if target not in lc['body']:
+                    fr.cut_armed = None
+                elif target != fr.cut_armed and not (blk.get('comment') or '').startswith('cond.'):
+                    # the loop body is entered again from a state reached after one iteration: the hook checks the
+                    # invariant there (phase 2) and ends the path; the body itself is covered from the havoc'd state
+                    fr.block = fr.cut_armed
+                    fr.cut_armed = None
+                    self._cut_push_hook(st, fr, lc, 2)
+                    return
+            if (fn.name, target) in self.loopcuts:
+                self._cut_arrival(st, fr, target)
+                if st.frames[-1] is not fr:
+                    fr.visits[target] = fr.visits.get(target, 0) + 1
+                    return
         c = fr.visits.get(target, 0) + 1
         fr.visits[target] = c
         if c % 40 == 0 and st.pc:
@@ -1019,6 +1197,16 @@ class Executor:
             except KeyError:
                 pass
         caller.ip += 1
+        if caller.cut_pending is not None:
+            # the base-case hook returned: havoc the loop-carried state and assume the invariant (phase 1)
+            target = caller.cut_pending
+            caller.cut_pending = None
+            if isinstance(target, tuple):
+                raise PathEnd('cut-base')
+            lc = self.loopcuts[(caller.fn.name, target)]
+            self._cut_havoc(st, caller, lc)
+            self._cut_push_hook(st, caller, lc, 1)
+            return None
         st.just_returned = True
         st.last_ret = fr.ret
         return None
